@@ -8,6 +8,13 @@ import (
 
 func callMethod(db *gorm.DB, fc func(value interface{}, tx *gorm.DB) bool) {
 	tx := db.Session(&gorm.Session{NewDB: true})
+	if rv := db.Statement.ReflectValue; rv.Kind() == reflect.Struct && rv.CanAddr() {
+		// the method set of the pointer includes the hooks defined with a value receiver,
+		// offering the value first would skip the ones defined with a pointer receiver
+		fc(rv.Addr().Interface(), tx)
+		return
+	}
+
 	if called := fc(db.Statement.ReflectValue.Interface(), tx); !called {
 		switch db.Statement.ReflectValue.Kind() {
 		case reflect.Slice, reflect.Array:
